@@ -31,6 +31,7 @@ LEVEL = "model_checking"
 L23 = os.path.join(REPO, "src/host/layer23")
 STALE = 0xaa            # *hopp_len before the call (drv_moballoc.c)
 UBSAN_ENV = {"UBSAN_OPTIONS": "print_stacktrace=0:exitcode=98"}   # vla-bound is built recoverable
+SHAPE_TAGS = ("alg.f-write", "alg.bit-index", "alg.stop", "no-action-enabled")
 MAX_CRASHES = 40        # sanitizer aborts tolerated per driver batch
 CLASS_CRASHES = 6       # ... and per input class (len_class) before that class is no longer executed
 
@@ -338,6 +339,7 @@ def validate(ctx, label, traces, parallel=4):
     unvalidated remainder of a rejected trace is re-submitted."""
     nev = 0
     rounds = 0
+    recheck = []
     while traces and rounds < 6:
         rounds += 1
         send = [dict(id=t["id"], cfg={}, ev=t["ev"]) for t in traces]
@@ -354,6 +356,25 @@ def validate(ctx, label, traces, parallel=4):
             tag = (v["tag"] or "no-action-enabled").replace("C20.", "")
             bad = tr["ev"][v["reached"]]
             c = tr["cases"][v["reached"]]
+            if tr["ev"][0]["e"] != "dec" and (tag in SHAPE_TAGS or tag.startswith("alg.expected-")):
+                # The step-level binding reads the function's own log lines.  A deviation in the
+                # sequence / arguments of those lines alone is not a verdict: it counts only if the
+                # result of that very execution is wrong as well (judged as a result record below).
+                k0 = v["reached"]
+                while k0 > 0 and tr["ev"][k0]["e"] != "call":
+                    k0 -= 1
+                k1 = v["reached"]
+                while k1 < len(tr["ev"]) and tr["ev"][k1]["e"] != "ret":
+                    k1 += 1
+                if tr["ev"][k0]["e"] == "call" and k1 < len(tr["ev"]):
+                    ce, re_ = tr["ev"][k0], tr["ev"][k1]
+                    rec = dict(e="dec", ca=ce["ca"], len=ce["len"], bitmap=ce["bitmap"], si4=ce["si4"], pre=ce["pre"],
+                               rc=re_["rc"], hopping=re_["hopping"], hoppLen=re_["hoppLen"], hoppMask=re_["hoppMask"])
+                    recheck.append((rec, c, tag, bad, v))
+                    k = k1 + 1
+                    if k < len(tr["ev"]):
+                        nxt.append(dict(id=tr["id"] + "+", ev=tr["ev"][k:], cases=tr["cases"][k:]))
+                    continue
             ctx.violation("C20/%s/%s" % (tag, len_class(c)),
                           "trace %s rejected at event %d/%d (%s): len=%d |CA|=%d bitmap=%s si4=%d -> %s"
                           % (v["id"], v["reached"] + 1, v["n"], tag, c["len"], len(c["ca"]), c["bitmap"][:10],
@@ -366,6 +387,23 @@ def validate(ctx, label, traces, parallel=4):
             if k < len(tr["ev"]):
                 nxt.append(dict(id=tr["id"] + "+", ev=tr["ev"][k:], cases=tr["cases"][k:]))
         traces = nxt
+    if recheck:
+        send = [dict(id="rc%d" % i, cfg={}, ev=[x[0]]) for i, x in enumerate(recheck)]
+        res, stats = tlc.validate_traces("MobAllocTrace.tla", "MobAllocTrace.cfg", send, scratch=ctx.scratch,
+                                         chunk="balance", parallel=parallel, timeout=3000)
+        ctx.add_tv("TV %s (results of executions whose log lines deviate)" % label, stats, len(send))
+        byid = {"rc%d" % i: x for i, x in enumerate(recheck)}
+        for v2 in res:
+            rec, c, tag, bad, v = byid[v2["id"]]
+            if v2["reached"] == v2["n"]:
+                ctx.extra["executions_with_deviating_log_lines_but_correct_result"] = \
+                    ctx.extra.get("executions_with_deviating_log_lines_but_correct_result", 0) + 1
+                continue
+            ctx.violation("C20/%s/%s" % (tag, len_class(c)),
+                          "execution rejected at step level (%s) and its result is wrong as well (%s): len=%d |CA|=%d bitmap=%s si4=%d -> %s"
+                          % (tag, v2["tag"], c["len"], len(c["ca"]), c["bitmap"][:10], c["si4"],
+                             {k: bad[k] for k in bad if k not in ("ca", "bitmap", "pre")}),
+                          dict(case=c, driver_line=case_line(c), event=bad, verdict=v, result_verdict=v2))
     return nev
 
 
@@ -507,8 +545,8 @@ def run(ctx):
 
         nviol = len(ctx.violations)
         total_ev += validate(ctx, "MobAllocTrace round %d" % rnd, traces)
-        if rnd == 0 and len(ctx.violations) == nviol:
-            selftest(ctx, traces)
+        if rnd == 0 and not ctx.violations:          # (on a tree that already shows violations - e.g. inputs
+            selftest(ctx, traces)                    # that killed the driver - there may be nothing suitable to corrupt)
         if rnd == 0:
             for c, r in ok[:2] + aok[:1]:
                 ctx.sample(dict(case=c, result={k: r[k] for k in ("rc", "hoppLen", "hopping", "hoppMask")}))
@@ -522,6 +560,7 @@ def run(ctx):
                 "the sliced real function under ASan+UBSan; non-trivial = non-empty CA and at least one bit set in an "
                 "accepted bitmap; distinct by (CA, bitmap, si4)")
     si_fold(ctx, si_fut.result())
+    setfh_stage(ctx)
     si_pool.shutdown()
 
 
@@ -955,6 +994,59 @@ def si_selftest(scratch, traces, out):
         if v["reached"] != k or not v["tag"].startswith(tag):
             raise tlc.MachineryError("si self-test %s: expected rejection at event %d with %s, got %s" % (tr["id"], k + 1, tag, v))
     out["extra"]["si_selftest_corruptions_rejected"] = len(jobs)
+
+
+def setfh_stage(ctx):
+    """The downstream consumer named by the property's anchors: trxcon composes CMD SETFH from the
+    decoded hopping list (trx_if_cmd_setfh).  The command must carry exactly the channels of the
+    list, in order, or be refused as a whole (TrxconTrace: SetfhText / SetfhFits)."""
+    import sys
+    sys.path.insert(0, os.path.join(os.path.dirname(os.path.dirname(os.path.dirname(os.path.abspath(__file__)))), "harness", "py"))
+    import trxcon_drv as T
+    exe = T.build(ctx)
+    rng = ctx.rng
+    traces = []
+    bands = [list(range(1, 125)), list(range(512, 886)), list(range(975, 1024)) + [0], list(range(128, 252)),
+             [0x8000 | a for a in range(512, 811)]]
+    for k in range(ctx.pick(40, 800)):
+        band = rng.choice(bands)
+        n = rng.choice([1, 2, 8, 33, 60, 61, 62, 63, 64, 64])
+        ma = rng.sample(band, min(n, len(band)))
+        if rng.random() < 0.6:
+            ma.sort()
+        arg = (rng.choice([0, 1, 9, 10, 63]), rng.choice([0, 9, 10, 63])) + tuple(ma)
+        tc = T.Trxcon(exe)
+        r = tc.cmd("H1", *arg)
+        tc.close()
+        if r is None or tc.crashed:
+            rc, err = tc.crashed or (None, "")
+            ctx.violation("C20/setfh/memory", "trx_if.c died composing SETFH for %d channels (rc=%s)" % (len(ma), rc),
+                          dict(h1=list(arg), stderr=err))
+            continue
+        h1 = dict(hsn=arg[0], maio=arg[1], ma=list(ma))
+        if r["rc"] != 0 and not r["sent"]:
+            ev = dict(e="h1refused", h1=h1, rc=r["rc"])
+        else:
+            ev = dict(e="enq", texts=[list(bytes(r["sent"][0])[:-1])] if r["sent"] else [], crit=[True],
+                      status=dict(st=r["st"], term=r["term"], q=r["q"], timer=r["timer"]), sent=r["sent"], h1=[h1])
+        traces.append(dict(id="h%d" % k, cfg={}, ev=[ev]))
+        ctx.count()
+    res, stats = tlc.validate_traces("TrxconTrace.tla", "TrxconTrace.cfg", traces, scratch=ctx.scratch, parallel=3)
+    ctx.add_tv("TV TrxconTrace (SETFH composed from hopping lists by the real trx_if.c)", stats, len(traces))
+    byid = {t["id"]: t for t in traces}
+    nref = 0
+    for v in res:
+        e = byid[v["id"]]["ev"][0]
+        nref += e["e"] == "h1refused"
+        if v["reached"] != v["n"]:
+            h = e["h1"] if e["e"] == "h1refused" else e["h1"][0]
+            ctx.violation("C20/%s/n-%d" % (v["tag"].replace("C05.trxcon.", "setfh."), len(h["ma"])),
+                          "SETFH for a hopping list of %d channels (first ARFCN %d): %s; %s"
+                          % (len(h["ma"]), h["ma"][0] & 0x3ff, v["tag"],
+                             "refused rc=%s" % e.get("rc") if e["e"] == "h1refused" else "sent %d octets" % len(e["texts"][0] if e["texts"] else [])),
+                          dict(h1=h, event={a: b for a, b in e.items() if a not in ("sent",)}))
+    ctx.extra["setfh_lists"] = len(traces)
+    ctx.extra["setfh_lists_refused_as_too_long"] = nref
 
 
 def si_compute(scratch, seed, thorough, exe):
